@@ -125,6 +125,11 @@ impl<T> Vec<T> {
 
     /// Returns a reference to the element at the given index.
     pub fn get(&self, index: u32) -> Option<Item<'_, T>> {
+        // indices past the maximum length can never be initialized
+        // (and `Location::of` would panic for them)
+        if index > MAX_ENTRIES {
+            return None;
+        }
         let location = Location::of(index);
         #[cfg(feature = "verif-hooks")]
         point(site::BOXCAR_GET_LOAD, index as u64);
